@@ -485,12 +485,14 @@ class Ctx:
             for v in impl[:5]:
                 v.setdefault('also_broken', [o.get('theorem') or o.get('kind') for o in other])
                 lines.append(f'VIOLATION property={self.pid} replay={self.write_replay(v)}')
+                lines.append('  what: ' + ' '.join(str(v.get('observed', v.get('kind')))[:300].split()))
         elif other:
             rc = 1
             v = other[0]
             if len(other) > 1:
                 v['others'] = other[1:]
             lines.append(f'VIOLATION property={self.pid} replay={self.write_replay(v)} no-failing-input-found')
+            lines.append('  what: ' + ' '.join(str(v.get('theorem') or (v.get('disagreements') or [{}])[0].get('function') or v.get('kind'))[:300].split()))
         cov = dict(
             evaluations=self.evaluations,
             distinct_nontrivial=len(self.nontrivial),
